@@ -155,10 +155,31 @@ pub fn run(tier: Tier) -> i32 {
             acc.sample(json!({"lang": l.code(), "pair": format!("{} {}", sp[20], sp[12])}));
         } else {
             // dictation: all digit strings of length 1..=dict_len whose first two digits are `lo` (and the short ones once)
-            let words: Vec<String> = (0..10u8).map(|d| digit_word(l, d)).collect();
+            // digit words: the standard ones, and (as a second pass, lengths <= 5) the aliases the language accepts
+            // for single digits: English 'o' / 'nought' for zero, German 'zwo', Dutch 'één'
+            let std_words: Vec<String> = (0..10u8).map(|d| digit_word(l, d)).collect();
+            let mut word_sets: Vec<(Vec<String>, usize)> = vec![(std_words.clone(), dict_len)];
+            let alias = |d: usize, w: &str| -> (Vec<String>, usize) {
+                let mut v = std_words.clone();
+                v[d] = w.to_string();
+                (v, dict_len.min(5))
+            };
+            match l {
+                L::En => {
+                    word_sets.push(alias(0, "o"));
+                    word_sets.push(alias(0, "nought"));
+                }
+                L::De => word_sets.push(alias(2, "zwo")),
+                L::Nl => word_sets.push(alias(1, "één")),
+                _ => {}
+            }
             let p = lo as u8;
             let (d0, d1) = (p / 10, p % 10);
+            for (words, dict_len) in word_sets {
             let mut run_one = |digits: &[u8], acc: &mut Acc| {
+                if digits == [0] && words[0] == "o" {
+                    return; // a lone 'o' has no number word next to it: an ordinary word by the 'o' rule (C18)
+                }
                 acc.states += 1;
                 acc.traces += 1;
                 acc.transitions += digits.len() as u64;
@@ -195,13 +216,14 @@ pub fn run(tier: Tier) -> i32 {
                     run_one(&digits, acc);
                 }
             }
+            }
         }
     });
     acc.nontrivial = acc.states;
     let cov = json!({
         "exhaustive": true,
         "rule": "all (a,b) in [0,99]^2 x {space, conjunction} x 7 languages rewritten at threshold 0 and compared with the allowed set {a j b} U {c < 10000 : morphemes(c) = morphemes(a)+morphemes(b) modulo the conjunction} (+ '0b' for a = 0); all digit strings up to the length bound dictated digit by digit",
-        "bounds": {"pairs": 20000 * 7, "dictation_max_len": dict_len},
+        "bounds": {"pairs": 20000 * 7, "pairs_in_each_orthographic_variant": true, "dictation_max_len": dict_len, "dictation_with_digit_aliases": "en o / nought, de zwo, nl één; lengths <= 5"},
     });
-    ctx.finish(acc, cov, vec!["standard spellings of a and b; fusion is judged on morphemes with the conjunction removed".into()])
+    ctx.finish(acc, cov, vec!["standard spellings of a and b, then each accepted orthographic variant alone (fr 'quatre vingt' written apart excluded: the segmentation into two numbers is then ambiguous); fusion is judged on morphemes with the conjunction removed".into()])
 }
